@@ -242,6 +242,18 @@ func FullDump(bc *core.Blockchain, deployed []util.Uint160) Dump {
 		}
 		d["go/enrollments"] = strings.Join(s, ",")
 	}
+	{
+		hs := func(l []util.Uint160) string {
+			ss := make([]string, len(l))
+			for i := range l {
+				ss[i] = l[i].StringLE()
+			}
+			sort.Strings(ss)
+			return strings.Join(ss, ",")
+		}
+		d["go/nep17contracts"] = hs(bc.GetNEP17Contracts())
+		d["go/nep11contracts"] = hs(bc.GetNEP11Contracts())
+	}
 	d["go/policy"] = fmt.Sprintf("fpb=%d base=%d sp=%d mtb=%d ms=%d vub=%d mvg=%d", bc.FeePerByte(), bc.GetBaseExecFee(), bc.GetStoragePrice(),
 		bc.GetMaxTraceableBlocks(), bc.GetMillisecondsPerBlock(), bc.GetMaxValidUntilBlockIncrement(), bc.GetMaxVerificationGAS())
 	for i, k := range append(append([]Key{}, Accounts...), Candidates...) {
